@@ -2,7 +2,15 @@
 
 CONSTANTS[group] = [(lean_name, file relative to /repo, regex with ONE group, kind)]
 kind: "int" | "intlist" | "f64ratio"
+
+Besides the one tuning constant, the items below tie the SHAPE of the critical expressions of
+arrow-data/src/equal/* (guards, index arithmetic, which operand a mask / offset comes from) that
+the Lean model `ArrowModel.C02.Model` mirrors: each regex spells the expression out and captures
+an integer literal inside (or, where the expression has none, the `2` of the licence header's
+"Version 2.0" in front of it); when the source is edited the pattern no longer matches, the item
+goes LOST and the obligation `ArrowModel.C02.source_shape_ties` fails.
 """
+H = r"Version (\d+)\.0.*?"   # licence header, then (non-greedy, re.S) the expression
 CONSTANTS = {
     "C02": [
         # null-density switch of primitive_equal / fixed_binary_equal between the per-slot loop
@@ -10,6 +18,51 @@ CONSTANTS = {
         # the driver uses the value to take the same branch as the code)
         ("NULL_SLICES_SELECTIVITY_THRESHOLD", "arrow-data/src/equal/primitive.rs",
          r"const\s+NULL_SLICES_SELECTIVITY_THRESHOLD\s*:\s*f64\s*=\s*([0-9_]+(?:\.[0-9_]+)?)\s*;", "f64ratio"),
+        # boolean_equal: fast-path guard (all four of lhs_start, rhs_start, lhs.offset(), rhs.offset()), byte indexing, suffix
+        ("BOOL_FAST_PATH_GUARD", "arrow-data/src/equal/boolean.rs",
+         r"if !contains_nulls \{\s*(?://[^\n]*\n\s*)*if lhs_start\.is_multiple_of\((\d+)\)\s*&&\s*rhs_start\.is_multiple_of\(8\)\s*&&\s*lhs\.offset\(\)\.is_multiple_of\(8\)\s*&&\s*rhs\.offset\(\)\.is_multiple_of\(8\)\s*\{", "int"),
+        ("BOOL_FAST_PATH_INDEX", "arrow-data/src/equal/boolean.rs",
+         r"let quot = len / (\d+);\s*if quot > 0\s*&&\s*!equal_len\(\s*lhs_values,\s*rhs_values,\s*lhs_start / 8 \+ lhs\.offset\(\) / 8,\s*rhs_start / 8 \+ rhs\.offset\(\) / 8,\s*quot,\s*\)", "int"),
+        ("BOOL_SUFFIX", "arrow-data/src/equal/boolean.rs",
+         r"let rem = len % (\d+);\s*if rem == 0 \{\s*return true;\s*\} else \{\s*let aligned_bits = len - rem;\s*lhs_start \+= aligned_bits;\s*rhs_start \+= aligned_bits;\s*len = rem\s*\}\s*\}\s*equal_bits\(\s*lhs_values,\s*rhs_values,\s*lhs_start \+ lhs\.offset\(\),\s*rhs_start \+ rhs\.offset\(\),\s*len,", "int"),
+        ("BOOL_NULL_PATH", "arrow-data/src/equal/boolean.rs",
+         H + r"BitIndexIterator::new\(lhs_nulls\.validity\(\), lhs_start \+ lhs_nulls\.offset\(\), len\)\.all\(\|i\| \{\s*let lhs_pos = lhs_start \+ lhs\.offset\(\) \+ i;\s*let rhs_pos = rhs_start \+ rhs\.offset\(\) \+ i;\s*get_bit\(lhs_values, lhs_pos\) == get_bit\(rhs_values, rhs_pos\)", "int"),
+        # equal_nulls: the four (Some/None) cases; contains_nulls: first slice only
+        ("EQUAL_NULLS_CASES", "arrow-data/src/equal/utils.rs",
+         H + r"\(Some\(lhs\), Some\(rhs\)\) => equal_bits\(\s*lhs\.validity\(\),\s*rhs\.validity\(\),\s*lhs\.offset\(\) \+ lhs_start,\s*rhs\.offset\(\) \+ rhs_start,\s*len,\s*\),\s*\(Some\(lhs\), None\) => !contains_nulls\(Some\(lhs\), lhs_start, len\),\s*\(None, Some\(rhs\)\) => !contains_nulls\(Some\(rhs\), rhs_start, len\),\s*\(None, None\) => true,", "int"),
+        ("CONTAINS_NULLS_SHAPE", "arrow-data/src/data.rs",
+         r"BitSliceIterator::new\(buffer\.validity\(\), buffer\.offset\(\) \+ offset, len\)\.next\(\) \{\s*Some\(\(start, end\)\) => start != (\d+) \|\| end != len,\s*None => len != 0,", "int"),
+        # equal(): base_equal, null_count, equal_nulls, equal_values over 0..len
+        ("EQUAL_TOP", "arrow-data/src/equal/mod.rs",
+         r"utils::base_equal\(lhs, rhs\)\s*&&\s*lhs\.null_count\(\) == rhs\.null_count\(\)\s*&&\s*utils::equal_nulls\(lhs, rhs, (\d+), 0, lhs\.len\(\)\)\s*&&\s*equal_values\(lhs, rhs, 0, 0, lhs\.len\(\)\)", "int"),
+        # primitive_equal: buffer base, the three paths
+        ("PRIM_BASE", "arrow-data/src/equal/primitive.rs",
+         r"let lhs_values = &lhs\.buffers\(\)\[(\d+)\]\.as_slice\(\)\[lhs\.offset\(\) \* byte_width\.\.\];\s*let rhs_values = &rhs\.buffers\(\)\[0\]\.as_slice\(\)\[rhs\.offset\(\) \* byte_width\.\.\];", "int"),
+        ("PRIM_NO_NULLS", "arrow-data/src/equal/primitive.rs",
+         H + r"if !contains_nulls\(lhs\.nulls\(\), lhs_start, len\) \{\s*(?://[^\n]*\n\s*)*equal_len\(\s*lhs_values,\s*rhs_values,\s*lhs_start \* byte_width,\s*rhs_start \* byte_width,\s*len \* byte_width,\s*\)", "int"),
+        ("PRIM_SWITCH", "arrow-data/src/equal/primitive.rs",
+         H + r"let selectivity_frac = lhs\.null_count\(\) as f64 / lhs\.len\(\) as f64;.*?if selectivity_frac >= NULL_SLICES_SELECTIVITY_THRESHOLD \{", "int"),
+        ("PRIM_DENSE", "arrow-data/src/equal/primitive.rs",
+         H + r"lhs_is_null\s*\|\|\s*\(lhs_is_null == rhs_is_null\)\s*&&\s*equal_len\(\s*lhs_values,\s*rhs_values,\s*lhs_pos \* byte_width,\s*rhs_pos \* byte_width,\s*byte_width,", "int"),
+        ("PRIM_SPARSE", "arrow-data/src/equal/primitive.rs",
+         H + r"l_start == r_start\s*&&\s*l_end == r_end\s*&&\s*equal_len\(\s*lhs_values,\s*rhs_values,\s*\(lhs_start \+ l_start\) \* byte_width,\s*\(rhs_start \+ r_start\) \* byte_width,\s*\(l_end - l_start\) \* byte_width,", "int"),
+        # byte_view_equal: null test at lhs_start + idx, length+prefix word, inline limit
+        ("VIEW_NULL_INDEX_INLINE", "arrow-data/src/equal/byte_view.rs",
+         r"if lhs\.is_null\(lhs_start \+ idx\) \{\s*continue;\s*\}.*?if l_len_prefix != r_len_prefix \{\s*return false;\s*\}.*?if len <= (\d+) \{\s*if l != r \{", "int"),
+        # parents: which start / offset addresses the child
+        ("STRUCT_CHILD_START", "arrow-data/src/equal/structure.rs",
+         r"equal_child_values\(lhs, rhs, lhs_start, rhs_start, len\).*?lhs_is_null \|\| equal_child_values\(lhs, rhs, lhs_pos, rhs_pos, (\d+)\)", "int"),
+        ("FSL_CHILD_START", "arrow-data/src/equal/fixed_list.rs",
+         H + r"equal_range\(\s*lhs_values,\s*rhs_values,\s*\(lhs_start \+ lhs\.offset\(\)\) \* size,\s*\(rhs_start \+ rhs\.offset\(\)\) \* size,\s*size \* len,\s*\)", "int"),
+        ("LIST_REBASE", "arrow-data/src/equal/list.rs",
+         H + r"lhs_child_length == rhs_child_length\s*&&\s*lengths_equal\(\s*&lhs_offsets\[lhs_start\.\.lhs_start \+ len\],\s*&rhs_offsets\[rhs_start\.\.rhs_start \+ len\],\s*\)\s*&&\s*equal_range\(\s*lhs_values,\s*rhs_values,\s*lhs_offsets\[lhs_start\]\.to_usize\(\)\.unwrap\(\),\s*rhs_offsets\[rhs_start\]\.to_usize\(\)\.unwrap\(\),\s*lhs_child_length,", "int"),
+        ("DICT_KEYS", "arrow-data/src/equal/dictionary.rs",
+         r"lhs_is_null\s*\|\|\s*\(lhs_is_null == rhs_is_null\)\s*&&\s*equal_range\(\s*lhs_values,\s*rhs_values,\s*lhs_keys\[lhs_pos\]\.to_usize\(\)\.unwrap\(\),\s*rhs_keys\[rhs_pos\]\.to_usize\(\)\.unwrap\(\),\s*(\d+),", "int"),
+        ("VAR_OFFSETS", "arrow-data/src/equal/variable_size.rs",
+         r"let lhs_offsets_slice = &lhs_offsets\[lhs_start\.\.lhs_start \+ len \+ (\d+)\];\s*let rhs_offsets_slice = &rhs_offsets\[rhs_start\.\.rhs_start \+ len \+ 1\];\s*lengths_equal\(lhs_offsets_slice, rhs_offsets_slice\)\s*&&\s*offset_value_equal\(", "int"),
+        # ArrayData::slice: the Struct special case (sliceModel, sliceModel_struct_not_spec)
+        ("SLICE_STRUCT", "arrow-data/src/data.rs",
+         H + r"if let DataType::Struct\(_\) = self\.data_type\(\) \{\s*// Slice into children\s*let new_offset = self\.offset \+ offset;.*?\.map\(\|data\| data\.slice\(offset, length\)\).*?new_data\.offset = offset \+ self\.offset;\s*new_data\.nulls = self\.nulls\.as_ref\(\)\.map\(\|x\| x\.slice\(offset, length\)\);", "int"),
     ],
 }
 FUNCTIONS = {}
